@@ -63,8 +63,8 @@ SHARD_TIMEOUT = {"quick": 600, "thorough": 2400}
 # palettes (VERIF_SEED selects a row; every row is clean on the unchanged tree)
 # ---------------------------------------------------------------------------
 VALUE_PALETTES = [(0, 1, 2, 4), (0, 1, 3, 5), (0, 2, 3, 7), (0, 0.5, 1, 1.5), (0, 1, 2, 3)]
-BRANCH_PALETTES = [(1, 2, 3), (1, 2, 4), (0.5, 1, 1.5), (1, 3, 5), (2, 3, 4)]
-ZERO_BRANCH_PALETTES = [(0, 1, 2), (0, 1, 3), (0, 0.5, 1), (0, 2, 3), (0, 1, 4)]
+BRANCH_PALETTES = [(1, 3, 5), (1, 2, 6), (0.5, 1.5, 3), (1, 4, 7), (2, 5, 11)]   # ratio >= 5: long pendant edges next to short inner ones
+ZERO_BRANCH_PALETTES = [(0, 1, 5), (0, 1, 4), (0, 0.5, 3), (0, 2, 7), (0, 1, 6)]
 DIST_BASES = [0.25, 0.375, 1.5, 0.0625, 2.75]          # exactly representable in float32
 MILLI_BASES = [1e-3, 3e-3, 7e-4, 1.1e-3, 9e-3]          # not representable in float32
 DIST_PALETTES = ["ones", "half", "zero", "distinct", "milli", "ints", "mixed"]
@@ -111,7 +111,7 @@ def bounds(tier):
                     "3-value palette; n=6: %s" % ("assignments with <= 2 distinct lengths (positive palette)" if q
                                                   else "all 3^9 assignments (positive palette) and <= 2 distinct "
                                                        "lengths (zero palette)"),
-        "tree_leaves": "<=5" if q else "<=5, and 6 without unary nodes (2 permutations)",
+        "tree_leaves": "<=5" if q else "<=5, and 6 with <= 1 unary node (identity and reversed permutation)",
         "tree_unary_nodes": 1 if q else 2,
         "tree_permutations": "all for n<=4; n=5: %s" % (
             "identity x 7 palettes + 5 listed permutations x {distinct, milli}" if q
@@ -1134,8 +1134,8 @@ def shards(tier, seed):
         for p in range(parts):
             out.append({"kind": "tree", "n": n, "unary": U, "part": p, "parts": parts})
     if not q:
-        for p in range(4):
-            out.append({"kind": "tree", "n": 6, "unary": 0, "part": p, "parts": 4})
+        for p in range(32):
+            out.append({"kind": "tree", "n": 6, "unary": 1, "part": p, "parts": 32})
     # small spaces
     out.append({"kind": "labeling", "n": 1})
     out.append({"kind": "labeling", "n": 2})
